@@ -27,7 +27,7 @@ def fact_body_Program_Wait : List String := [
     "{ <-p.finished }"]
 
 def fact_body_Program_checkResize : List String := [
-    "{ if p.ttyOutput == nil { return } v1, v2, v3 := term.GetSize(p.ttyOutput.Fd()) if v3 != nil { select { case <-p.ctx.Done(): case p.errs <- v3: } return } p.Send(WindowSizeMsg{ Width: v1, Height: v2, }) }"]
+    "{ if p.ttyOutput == nil { return } p.resizeMu.Lock() defer p.resizeMu.Unlock() v1, v2, v3 := term.GetSize(p.ttyOutput.Fd()) if v3 != nil { select { case <-p.ctx.Done(): case p.errs <- v3: } return } verifPause(\"checkResize: size read\") p.Send(WindowSizeMsg{ Width: v1, Height: v2, }) }"]
 
 def fact_body_Program_handleCommands : List String := [
     "{ v1 := make(chan struct{}) go func() { defer close(v1) for { select { case <-p.ctx.Done(): return case v2 := <-a1: if v2 == nil { continue } go func() { if !p.startupOptions.has(withoutCatchPanics) { defer p.recoverFromPanic() } v3 := v2() p.Send(v3) }() } } }() return v1 }"]
@@ -41,11 +41,20 @@ def fact_body_Program_handleSignals : List String := [
 def fact_body_Program_initCancelReader : List String := [
     "{ if a1 && p.cancelReader != nil { p.cancelReader.Cancel() p.waitForReadLoop() } var v1 error p.cancelReader, v1 = newInputReader(p.input, p.mouseMode) if v1 != nil { return fmt.Errorf(\"error creating cancelreader: %w\", v1) } p.readLoopDone = make(chan struct{}) go p.readLoop() return nil }"]
 
+def fact_body_Program_initInput : List String := [
+    "{ if v1, v2 := p.input.(term.File); v2 && term.IsTerminal(v1.Fd()) { p.ttyInput = v1 p.previousTtyInputState, o1 = term.MakeRaw(p.ttyInput.Fd()) if o1 != nil { return fmt.Errorf(\"error entering raw mode: %w\", o1) } } if v3, v4 := p.output.(term.File); v4 && term.IsTerminal(v3.Fd()) { p.ttyOutput = v3 } return nil }"]
+
 def fact_body_Program_listenForResize : List String := [
     "{ v1 := make(chan os.Signal, 1) signal.Notify(v1, syscall.SIGWINCH) defer func() { signal.Stop(v1) close(a1) }() for { select { case <-p.ctx.Done(): return case <-v1: } p.checkResize() } }"]
 
 def fact_body_Program_readLoop : List String := [
     "{ defer close(p.readLoopDone) v1 := readInputs(p.ctx, p.msgs, p.cancelReader) if !errors.Is(v1, io.EOF) && !errors.Is(v1, cancelreader.ErrCanceled) { select { case <-p.ctx.Done(): case p.errs <- v1: } } }"]
+
+def fact_body_Program_restoreInput : List String := [
+    "{ if p.ttyInput != nil && p.previousTtyInputState != nil { if v1 := term.Restore(p.ttyInput.Fd(), p.previousTtyInputState); v1 != nil { return fmt.Errorf(\"error restoring console: %w\", v1) } } if p.ttyOutput != nil && p.previousOutputState != nil { if v2 := term.Restore(p.ttyOutput.Fd(), p.previousOutputState); v2 != nil { return fmt.Errorf(\"error restoring console: %w\", v2) } } return nil }"]
+
+def fact_body_Program_suspend : List String := [
+    "{ if v1 := p.ReleaseTerminal(); v1 != nil { return } suspendProcess() _ = p.RestoreTerminal() go p.Send(ResumeMsg{}) }"]
 
 def fact_body_Program_waitForReadLoop : List String := [
     "{ select { case <-p.readLoopDone: case <-time.After(500 * time.Millisecond): } }"]
@@ -71,6 +80,9 @@ def fact_body_detectReportFocus : List String := [
 def fact_body_newRenderer : List String := [
     "{ if a3 < 1 { a3 = defaultFPS } else if a3 > maxFPS { a3 = maxFPS } v1 := &standardRenderer{ a1: a1, mtx: &sync.Mutex{}, done: make(chan struct{}), framerate: time.Second / time.Duration(a3), a2: a2, queuedMessageLines: []string{}, } if v1.useANSICompressor { v1.out = &compressor.Writer{Forward: a1} } return v1 }"]
 
+def fact_body_standardRenderer_halt : List String := [
+    "{ r.listenMtx.Lock() defer r.listenMtx.Unlock() if !r.listening { return } r.done <- struct{}{} r.listening = false }"]
+
 def fact_body_standardRenderer_handleMessages : List String := [
     "{ switch v1 := a1.(type) { case repaintMsg: r.mtx.Lock() r.repaint() r.mtx.Unlock() case WindowSizeMsg: r.mtx.Lock() r.width = v1.Width r.height = v1.Height r.repaint() r.mtx.Unlock() case clearScrollAreaMsg: r.clearIgnoredLines() r.mtx.Lock() r.repaint() r.mtx.Unlock() case syncScrollAreaMsg: r.clearIgnoredLines() r.setIgnoredLines(v1.topBoundary, v1.bottomBoundary) r.insertTop(v1.lines, v1.topBoundary, v1.bottomBoundary) r.mtx.Lock() r.repaint() r.mtx.Unlock() case scrollUpMsg: r.insertTop(v1.lines, v1.topBoundary, v1.bottomBoundary) case scrollDownMsg: r.insertBottom(v1.lines, v1.topBoundary, v1.bottomBoundary) case printLineMessage: if !r.altScreenActive { v2 := strings.Split(v1.messageBody, \"\\n\") r.mtx.Lock() r.queuedMessageLines = append(r.queuedMessageLines, v2...) r.repaint() r.mtx.Unlock() } } }"]
 
@@ -81,7 +93,7 @@ def fact_body_standardRenderer_repaint : List String := [
     "{ r.lastRender = \"\" r.lastRenderedLines = nil }"]
 
 def fact_body_standardRenderer_start : List String := [
-    "{ if r.ticker == nil { r.ticker = time.NewTicker(r.framerate) } else { r.ticker.Reset(r.framerate) } r.once = sync.Once{} go r.listen() }"]
+    "{ r.listenMtx.Lock() defer r.listenMtx.Unlock() if r.ticker == nil { r.ticker = time.NewTicker(r.framerate) } else { r.ticker.Reset(r.framerate) } if r.listening { return } r.listening = true go r.listen() }"]
 
 def fact_body_standardRenderer_write : List String := [
     "{ r.mtx.Lock() defer r.mtx.Unlock() r.buf.Reset() if a1 == \"\" { a1 = \" \" } _, _ = r.buf.WriteString(a1) }"]
@@ -373,7 +385,7 @@ def fact_order_Program_shutdown : List String := [
     "p.restoreTerminalState"]
 
 def fact_order_standardRenderer_kill : List String := [
-    "r.once.Do",
+    "r.halt",
     "r.mtx.Lock",
     "r.mtx.Unlock",
     "r.execute(ansi.EraseEntireLine)",
@@ -384,11 +396,13 @@ def fact_order_standardRenderer_listen : List String := [
     "r.flush"]
 
 def fact_order_standardRenderer_start : List String := [
+    "r.listenMtx.Lock",
+    "r.listenMtx.Unlock",
     "[!r.ticker == nil]r.ticker.Reset",
     "r.listen"]
 
 def fact_order_standardRenderer_stop : List String := [
-    "r.once.Do",
+    "r.halt",
     "r.flush",
     "r.mtx.Lock",
     "r.mtx.Unlock",
@@ -451,8 +465,7 @@ def fact_sends : List String := [
     "Program.readLoop|p.errs|select+done|go=false",
     "readAnsiInputs|a2|select+done|go=false",
     "readAnsiInputs|a2|select+done|go=false",
-    "standardRenderer.kill|r.done|bare|go=false",
-    "standardRenderer.stop|r.done|bare|go=false"]
+    "standardRenderer.halt|r.done|bare|go=false"]
 
 def fact_sig_Program_Run : List String := [
     "func() (o1 Model, o2 error)"]
